@@ -58,3 +58,16 @@ Example C16_set_iteration_depends_on_seed :
   run_history setiter_program 5 1 (fun _ => 0) [ex_call]
   <> map (fun c => fst (run_call setiter_program 5 2 (fun _ => 0) c)) [ex_call].
 Proof. exact setiter_differs. Qed.
+
+(* ---- only the output dictionaries are written: in the write set of the regenerated summary the entry function assemble() occurs
+   with its source argument (an immutable string; over-approximation), `constants` and `labels` only -- never with `include_dirs`
+   (a list the caller may hand to several calls) or `compress` *)
+From BB Require Proofs.EffectsParams.
+Theorem C16_only_output_dictionaries_written :
+  Proofs.EffectsParams.written_only Gen.Effects.summary Gen.Effects.entry_params "assemble" ["path_or_source"; "constants"; "labels"]%string = true /\
+  existsb (fun o => match o with Some n => String.eqb n "constants" | None => false end)
+          (Proofs.EffectsParams.written_names Gen.Effects.summary Gen.Effects.entry_params "assemble") = true /\
+  existsb (fun o => match o with Some n => String.eqb n "labels" | None => false end)
+          (Proofs.EffectsParams.written_names Gen.Effects.summary Gen.Effects.entry_params "assemble") = true.
+Proof. exact Proofs.EffectsParams.assemble_writes_only_outputs. Qed.
+Print Assumptions C16_only_output_dictionaries_written.
